@@ -20,6 +20,7 @@ import ast
 from .. import tracetab
 from ..astutil import call_name, calls, dotted, names_in, param_names, stmts, walk_local
 from ..core import AnalysisError, Mutant
+from ..exprnorm import contains_expr
 
 EXPLANATION = (
     "Exhaustive evaluation of the trace selectors from their ASTs over all weak orderings of their "
@@ -37,6 +38,12 @@ AFFINE_GROUPS = [
     ("max_gap_left_score", ["match_to_gap_left_score", "gap_left_to_gap_left_score"]),
     ("max_gap_top_score", ["match_to_gap_top_score", "gap_top_to_gap_top_score"]),
 ]
+
+
+def sub_vars(f, sc):
+    """locals that hold the substitution score"""
+    return {st.targets[0].id for st in ast.walk(f) if isinstance(st, ast.Assign) and isinstance(st.targets[0], ast.Name)
+            and contains_expr(st.value, sc)}
 
 
 def cell_reads(expr):
@@ -103,8 +110,11 @@ def run(ctx):
     en = tracetab.enums(ctx)
     n1 = tracetab.selector_check(ctx, "R1", "get_trace_linear", LINEAR_GROUPS)
     n2 = tracetab.selector_check(ctx, "R1", "get_trace_affine", AFFINE_GROUPS)
-    ctx.floor("orderings-linear", n1, 13)
-    ctx.floor("orderings-affine", n2, 117)
+    # a selector that is not comparison-only is reported as a violation of R1.comparison-only (no orderings are evaluated then)
+    if n1 or not any(f_.rule == "R1.comparison-only" and f_.qualname == "get_trace_linear" for f_ in ctx.findings):
+        ctx.floor("orderings-linear", n1, 13)
+    if n2 or not any(f_.rule == "R1.comparison-only" and f_.qualname == "get_trace_affine" for f_ in ctx.findings):
+        ctx.floor("orderings-affine", n2, 117)
     tracetab.dispatch_check(ctx, "R2")
     sten = tracetab.stencil(ctx)[False]
     ctx.ob("R3.stencil-values", TT, "follow_trace", str(sorted(sten.items())),
@@ -154,13 +164,28 @@ def run(ctx):
     # loops cover the table from 1
     for q in ("_fill_align_table", "_fill_align_table_affine"):
         f = s.func(q)
-        rng = [ast.unparse(st.iter) for st in ast.walk(f) if isinstance(st, ast.For)]
-        ctx.ob("R3.fill-range", PW, q, str(rng), len(rng) == 2 and all(r.startswith("range(1, ") and ".shape[" in r for r in rng)
-               and "shape[0]" in rng[0] and "shape[1]" in rng[1],
-               "the table is filled for i and j from 1 to its full extent", f.lineno)
+        loops_ = [st for st in ast.walk(f) if isinstance(st, ast.For)]
+        rng = [ast.unparse(st.iter) for st in loops_]
+
+        def full_range(it, axis):
+            return isinstance(it, ast.Call) and call_name(it) == "range" and len(it.args) == 2 and not it.keywords \
+                and isinstance(it.args[0], ast.Constant) and it.args[0].value == 1 \
+                and isinstance(it.args[1], ast.Subscript) and isinstance(it.args[1].value, ast.Attribute) and it.args[1].value.attr == "shape" \
+                and isinstance(it.args[1].value.value, ast.Name) and it.args[1].value.value.id.endswith("table") \
+                and isinstance(it.args[1].slice, ast.Constant) and it.args[1].slice.value == axis
+
+        ctx.ob("R3.fill-range", PW, q, str(rng), len(loops_) == 2 and full_range(loops_[0].iter, 0) and full_range(loops_[1].iter, 1)
+               and isinstance(loops_[0].target, ast.Name) and loops_[0].target.id == "i" and isinstance(loops_[1].target, ast.Name)
+               and loops_[1].target.id == "j" and any(x is loops_[1] for x in ast.walk(loops_[0])),
+               "the table is filled for i in 1..shape[0]-1 and, inside, j in 1..shape[1]-1: exactly range(1, table.shape[axis])", f.lineno)
         sc = "matrix[code1[i - 1], code2[j - 1]]"
-        ctx.ob("R3.substitution-lookup", PW, q, sc, sc in ast.unparse(f),
-               "cell (i,j) compares symbol i-1 of sequence 1 with symbol j-1 of sequence 2", f.lineno)
+        # every value computed from the diagonal predecessor (i-1, j-1) adds the substitution score of symbols i-1 / j-1
+        diag_users = [st for st in ast.walk(f) if isinstance(st, ast.Assign) and any((a, b) == (-1, -1) for _, a, b in cell_reads(st.value))]
+        sub_ok = bool(diag_users) and all(contains_expr(st.value, sc) or any(
+            isinstance(n_, ast.Name) and n_.id in sub_vars(f, sc) for n_ in ast.walk(st.value)) for st in diag_users)
+        ctx.ob("R3.substitution-lookup", PW, q, sc, sub_ok,
+               "cell (i,j) compares symbol i-1 of sequence 1 with symbol j-1 of sequence 2: every candidate taken from the diagonal "
+               "predecessor must add matrix[code1[i-1], code2[j-1]]", f.lineno)
     # ---- align_optimal: boundary flags, start states, max_number -----------------
     ao = s.func("align_optimal")
     t = ast.unparse(ao)
@@ -204,6 +229,7 @@ def run(ctx):
 
 
 MUTANTS = [
+    Mutant("fill-linear-last-row-skipped", PW, "    for i in range(1, score_table.shape[0]):\n", "    for i in range(1, score_table.shape[0]-1):\n", "R3.fill-range", qualname="_fill_align_table"),
     Mutant("linear-tie-lost", TT, "            trace = (\n                TraceDirectionLinear.MATCH |\n                TraceDirectionLinear.GAP_LEFT |\n                TraceDirectionLinear.GAP_TOP\n            )",
            "            trace = (\n                TraceDirectionLinear.MATCH |\n                TraceDirectionLinear.GAP_LEFT\n            )", "R1.argmax-flags"),
     Mutant("linear-gt-ge", TT, "    if match_score > gap_left_score:\n        if match_score > gap_top_score:\n            trace = TraceDirectionLinear.MATCH",
